@@ -1129,4 +1129,27 @@ def run(ctx):
                     cases.append((f"verdict 134677 0 {tok_tx(tx_dict(tx))} {outs_tok(spend.vout)}",
                                   engine_verdict(spend.vout, tx, 0).split(" ")[0]))
             ctx.correspond("c10.bip322.verdict", EXE, cases, nontrivial=lambda ln, out: True)
+            # the MODEL of to_spend / to_sign (Model/C10/Bip322.lean): both txids and the verdict of the engine run
+            # under BIP322's required + upgradeable rules, for the signer's address and for another key's
+            mask = (bip322.REQUIRED_RULES | bip322.UPGRADEABLE_RULES)
+            cases = []
+            for a, o in pairs:
+                sig = bip322.sign(msg, wif, a)
+                for addr in (a, o):
+                    spk = ScriptPubKey.from_address(addr).script
+                    spend = bip322.to_spend(msg, spk)
+                    if isinstance(sig.payload, Witness):
+                        ss, stack = b"", [bytes(x) for x in sig.payload.stack]
+                    elif isinstance(sig.payload, Tx) and addr == a:
+                        t0 = sig.payload
+                        if (t0.version, t0.lock_time, len(t0.vin), t0.vin[0].sequence) != (0, 0, 1, 0):
+                            continue
+                        ss, stack = bytes(t0.vin[0].script_sig), [bytes(x) for x in t0.vin[0].script_witness.stack]
+                    else:
+                        continue
+                    tx = bip322.to_sign(spend, ss, Witness(stack))
+                    cases.append((f"bip322 {mask.value} {hx(msg)} {hx(bytes(spk))} {hx(ss)} {wit_tok(stack)}",
+                                  f"ok {spend.id[::-1].hex()} {tx.id[::-1].hex()} "
+                                  + engine_verdict(spend.vout, tx, 0, mask).split(" ")[0]))
+            ctx.correspond("c10.bip322.model", EXE, cases, nontrivial=lambda ln, out: True)
     ctx.note(f"harness time {time.time() - t_start:.1f}s")
